@@ -194,6 +194,22 @@ CLAIMS = {
              "maintains ParentOK, optimality for consistent heuristics and the iteration budget are not proved (partial): they are decided on every generated query by the model's "
              "checked output and the implementation-side oracle.",
         ref="§7 C11"),
+    "C13": dict(
+        technique="Lean 4 proof (exact rounding/mod arithmetic of the dual crossing; dual edge list from C02's table; truncation corner, wrap-compensation and count lemmas) + exact correspondence",
+        text="Kernel-checked: np.round (half-to-even) returns k for every argument within less than one half of k; under the half-cell condition the stored dual edge vector "
+             "(b mod 1) − (a mod 1) + round((a mod 1) − (b mod 1)) is exactly the true centre-to-centre displacement; dual vertices lie in [0,1); the dual edge list is exactly the "
+             "two-sided rows of C02's edge table, in edge order, with two different plaquettes as ends; every truncation corner lies in [0,1) and corner + shift is the unwrapped "
+             "point pos + vec/3; the stored vector of each polygon edge is the difference of the unwrapped corners and each original edge keeps two thirds (one third) of its vector "
+             "per truncated end (wrap-compensation identities); the truncated lattice has d vertices per truncated vertex of degree d>2 and one per other vertex, one position per "
+             "vertex, the E original edges first followed by d polygon edges per truncated vertex. Dual edges/crossings (exact rational centres, near-half and on-the-wall cases "
+             "excluded by margin) and the entire truncated lattice (indices, crossings, exact thirds) are compared with the model; the statement is evaluated on the implementation "
+             "with an independent unwrapping of plaquette centres (half-cell precondition, dual faces on closed lattices with crossing-free drawing, truncation incl. truncation of a "
+             "truncation, corners across the cell wall).",
+        note="Trusted: Lean kernel/Mathlib/standard axioms; harness. 'One dual face per original vertex' needs planarity of the straight-line dual (tested numerically as a "
+             "precondition) and the plaquette censuses after truncation are decided on the implementation (C01 ties plaquettes to the model). Known finding K3 (open): truncating a "
+             "vertex whose edges all leave within a half-plane gives a self-crossing drawing; fix D12 (nothing to replace raised ValueError) recorded in known_findings.json. "
+             "make_dual's documented 'too small' exception is the precondition failing.",
+        ref="§7 C13"),
 }
 
 PENDING_REASON = "check not built yet in this revision (work in progress; see DESIGN.md §7 for the planned Lean model and tie)"
